@@ -702,7 +702,9 @@ def run(ctx, rep):
     rep.floor("R04.6", "pushes into the batch", len(pushes), 2)
     for n in pushes:
         v = event_args(g, n)[1]
-        if contains(v, lambda x: call_is(x, r"mpsc::Receiver::<T>::(recv|try_iter|try_recv|iter|recv_timeout)$")):
+        ei = element_iterator(g, P, v)
+        if contains(v, lambda x: call_is(x, r"mpsc::Receiver::<T>::(recv|try_iter|try_recv|iter|recv_timeout)$")) or \
+                (ei is not None and contains(ei[0], lambda x: call_is(x, r"mpsc::Receiver::<T>::(try_iter|iter)$"))):
             rep.ok("R04.6", "batch.push source", expr_s(strip_ids(v))[:90], where=g.where(n))
         else:
             rep.violation("R04.6", "%s|batch-push-source" % ENT, "batch.push",
